@@ -49,6 +49,9 @@ partial def sxEPat : Sx → Option EPat
   | .node (.atom "par" :: ps) => (ps.mapM sxEPat).map EPat.par
   | .node [.atom "dur", .atom d, .atom tol, p] => do some (.dur (← parseRat d) (← parseRat tol) (← sxEPat p))
   | .node [.atom "delta", .atom t, p] => do some (.delta (← parseRat t) (← sxEPat p))
+  | .node [.atom "mono", .atom inst, b] => do some (.mono inst (← sxBinds b))
+  | .node (.atom "seq" :: ps) => (ps.mapM sxEPat).map EPat.seq
+  | .node [.atom "pn", .atom n, p] => do some (.pn (← sxEPat p) (← n.toNat?))
   | _ => none
 
 def sxDesc : Sx → Option Desc
